@@ -71,9 +71,11 @@ func collect(p *Prog) *slots {
 func mutate(r *lib.Rng, p *Prog) string {
 	s := collect(p)
 	for try := 0; try < 12; try++ {
-		pick := r.Intn(16)
-		if pick >= 13 {
+		pick := r.Intn(19)
+		if pick >= 16 {
 			pick = 4 // resource programs are rare: favour the use-after-move mutation
+		} else if pick == 15 {
+			pick = 13
 		}
 		switch pick {
 		case 0: // change / add a let annotation to a related type
@@ -226,7 +228,7 @@ func mutate(r *lib.Rng, p *Prog) string {
 			}
 			b := lib.Pick(r, cs)
 			i := r.Intn(len(*b))
-			if (*b)[i].Op == "let" || (*b)[i].Op == "iflet" || (*b)[i].Op == "for" {
+			if (*b)[i].Op == "let" || (*b)[i].Op == "iflet" || (*b)[i].Op == "for" || (*b)[i].Op == "guardlet" {
 				continue // would renumber variables
 			}
 			nb := append([]*Stmt{}, (*b)[:i]...)
@@ -271,6 +273,54 @@ func mutate(r *lib.Rng, p *Prog) string {
 			}
 			f.Body[n-1] = st
 			return "return-shape"
+		case 13, 14: // replace the else block of a guard by a shape that may not exit; maybe a jump before it
+			var cs [][2]int
+			for bi, b := range s.blocks {
+				for si, st := range *b {
+					if st.Op == "guard" || st.Op == "guardlet" {
+						cs = append(cs, [2]int{bi, si})
+					}
+				}
+			}
+			if len(cs) == 0 {
+				continue
+			}
+			c := lib.Pick(r, cs)
+			b := s.blocks[c[0]]
+			gd := (*b)[c[1]]
+			no := func() *Expr { return &Expr{Op: "bool", B: false, Typ: tBool} }
+			jmp := func() *Stmt { return &Stmt{Op: lib.Pick(r, []string{"break", "continue"})} }
+			pan := func() []*Stmt { return []*Stmt{{Op: "expr", E: &Expr{Op: "panic", Typ: tNever}}} }
+			switch r.Intn(7) {
+			case 0:
+				gd.B1 = []*Stmt{}
+			case 1:
+				gd.B1 = []*Stmt{{Op: "if", E: no(), B1: []*Stmt{jmp()}}}
+			case 2:
+				gd.B1 = []*Stmt{{Op: "if", E: no(), B1: []*Stmt{jmp()}, B2: []*Stmt{jmp()}}}
+			case 3:
+				gd.B1 = []*Stmt{{Op: "if", E: no(), B1: pan()}}
+			case 4:
+				gd.B1 = []*Stmt{{Op: "if", E: no(), B1: pan(), B2: []*Stmt{jmp()}}}
+			case 5:
+				gd.B1 = []*Stmt{jmp()}
+			default:
+				gd.B1 = []*Stmt{{Op: "if", E: no(), B1: []*Stmt{jmp()}, B2: []*Stmt{}}}
+			}
+			if r.Chance(1, 2) { // a conditional jump earlier in the same block
+				pre := &Stmt{Op: "if", E: no(), B1: []*Stmt{jmp()}}
+				nb := append([]*Stmt{}, (*b)[:c[1]]...)
+				nb = append(nb, pre)
+				nb = append(nb, (*b)[c[1]:]...)
+				*b = nb
+			}
+			// make the guard fail at run time
+			if gd.Op == "guard" {
+				gd.E = no()
+			} else if gd.E.Typ != nil {
+				gd.E = &Expr{Op: "cast", K: "as", A: &Expr{Op: "nil", Typ: tOpt(tNever)}, T: gd.E.Typ, Typ: gd.E.Typ}
+			}
+			return "guard-else-shape"
 		case 9, 10: // use another (earlier declared) variable
 			var cs []**Expr
 			for _, e := range s.exprs {
